@@ -105,6 +105,21 @@ def gen(rng, tier):
         if not thorough and big in text and text not in ("$[%s]" % big, "$[:%s]" % big, "$[?@.a == %s]" % big, "$[?@.a == 1e%s]" % big):
             continue
         yield {"kind": "compile", "text": text, "doc": [{"a": "aa", "p": "a{99999999999}"}, {"a": 1}], "ctx": Q.CTX}
+    # (1c) regular expressions at the edges of what `re` accepts: inline flags (and their clashes with the literal's flags),
+    # group syntax, back-references, look-around, classes, counted repetition, stray meta-characters
+    PATS = ["(?u)x", "(?a)(?u)x", "(?au)x", "(?L)x", "x(?i)", "(?i:x)", "(?-i:x)", "(?P<n>x)", "(?P=n)", "(?#c)x", "\\p{L}", "[[:alpha:]]",
+            "(?<=a)b", "(?<!a)b", "(?=a)", "(?!a)", "a{,}", "a{2,1}", "a**", "a++", "a?+", "(", ")", "[", "[]", "[^]", "\\", "\\1", "(a)\\2",
+            "(?(1)a|b)", "(?x) a b", "\\Z", "\\A", "\\b", "\\N{DASH}", "\\u12", "\\x1", "\\0", "\\8", "(?s).", "(?m)^a$", "[a-\\d]", "[z-a]",
+            "(?i)(?-i)a", "a{1}{2}", "(?P<1>a)", "(?P<n>a)(?P<n>b)", "(?", "(?P", "(?P<", "(*)", "+", "*a", "?", "{1}", "a|*"]
+    for pat in PATS:
+        for fl in (["", "a"] if "(?" in pat else [""]):
+            lit = pat.replace("/", "\\/")
+            yield {"kind": "compile", "text": "$[?@.a =~ /%s/%s]" % (lit, fl), "doc": [{"a": "x"}, {"a": "ab"}], "ctx": Q.CTX}
+        q = "'" + pat.replace("'", "\\'") + "'"
+        yield {"kind": "compile", "text": "$[?match(@.a, %s)]" % q, "doc": [{"a": "x"}, {"a": "ab"}], "ctx": Q.CTX}
+        yield {"kind": "compile", "text": "$[?search(@.a, %s)]" % q, "doc": [{"a": "x"}, {"a": "ab"}], "ctx": Q.CTX}
+        real = pat.replace("\\\\", "\\")
+        yield {"kind": "compile", "text": "$[?match(@.a, @.p) || search(@.a, @.p)]", "doc": [{"a": "x", "p": real}, {"a": "ab", "p": real}], "ctx": Q.CTX}
     for tok in ([big, "-" + big, "#" + big, "0" + big] if thorough else [big]):
         for doc in ({"a": [1, 2], big: 3}, [1, 2]):
             yield {"kind": "ptr", "mode": True, "text": "/" + tok, "doc": doc, "default": None, "has_default": False}
